@@ -24,13 +24,17 @@ LEVEL_TEXT = (
     "growth under its own membership test, drop-before-add, and the removal half of the pairing: on every path an "
     "element leaves the ordered list (pop / remove / del / item store / filtering rebuild / clear) only together with "
     "the removal from the key set of a key that is that very element lower-cased (spelled so, or established equal on "
-    "the path; an index read after the list changed does not name the element that left); (R16.3) ContentRange and WWWAuthenticate call the "
+    "the path - by a test, by the filter of the search that found the element, by its position among the lower-cased "
+    "elements; an index read after the list changed does not name the element that left), or is overwritten in place by an "
+    "element the path has established to lower-case to the same key; (R16.3) ContentRange and WWWAuthenticate call the "
     "callback after every change of their state (descriptor __set__ / property setters included) and build their "
     "parameter dicts with a callable that notifies the view; (R16.4) a class overriding __setattr__ hands every name "
     "that is a property with a setter (or a data descriptor) to the default __setattr__ on every path, decided by "
     "executing __setattr__ with that name; (R16.5) each view getter attaches its write-back function on every "
     "return path, and that function - executed for a non-empty and an empty view - ends by writing the view's "
-    "serialisation under the header the getter read, resp. deletes that header (or finds it absent); whole-property "
+    "serialisation under the header the getter read, resp. deletes that header (or finds it absent; a test of len(view) "
+    "against 0 counts as the truthiness test where the view's class has no __bool__ of its own or one that is the truth of "
+    "the storage __len__ measures; the serialisation, declared -> str, is not None); whole-property "
     "setters operate on the same header; (R16.6) every typed header property has a load/dump pair from the reasoned "
     "inverse table (lambdas compared up to parameter names and eta-reduction), the accessor stores dump(value) and "
     "loads load(item) under its own name, returns its default only on a path that has found the name absent from the "
@@ -50,7 +54,9 @@ LEVEL_TEXT = (
     "returns the empty string from the serialisation method the write-back stores on every path on which that method "
     "makes the object falsy (HeaderSet's list and set are empty together by R16.2). That Headers.set leaves exactly "
     "one line in every case (completeness of its scan, the shared iterator) is not decided beyond these comparisons; "
-    "serialisations built by an append loop are not recognised as empty; equality of header text and serialisation "
+    "a loop over a container the path knows to be empty is not entered (so an append loop serialises nothing then), other "
+    "accumulating serialisations are not recognised as empty; a __bool__ that reads its state through a descriptor object "
+    "of the class is not followed (exit 2); equality of header text and serialisation "
     "after arbitrary histories follows from these clauses only together with C06's pairing and is not itself decided; "
     "implicit exceptions and generator bodies are not followed."
 )
@@ -59,9 +65,11 @@ TRUSTED = [
     "typeshed dict / MutableSet mutator tables",
     "Python descriptor protocol: a property with a setter is a data descriptor and object.__setattr__ invokes it",
     "builtin container semantics: dict.pop / set.discard / remove change the container iff the key is present, setdefault iff it is absent",
-    "builtin truthiness: an object without __bool__ / __len__ is never falsy; a dict / list / set (subclass) is falsy iff it is empty; str.join of no items is ''",
+    "builtin truthiness: an object without __bool__ / __len__ is never falsy; a dict / list / set (subclass) is falsy iff it is empty; str.join of no items is '' whatever the separator; without __bool__, truthiness is len() != 0",
+    "return annotations: a method declared `-> str` by every package class that defines it does not return None",
 ]
 ASSUMPTIONS = [
+    "a value a path knows to be falsy and then iterates is an empty container: the loop body does not run on that path",
     "a view whose on_update is None has nothing to notify",
     "direct header edits between view reads are outside these clauses",
     "private helpers are reachable only through the public methods of their class (they are judged inlined into their callers)",
@@ -110,6 +118,17 @@ def _descriptor_set(repo, cls: ClassInfo, value: ast.AST) -> FuncInfo | None:
         return None
     _, what = repo.lookup(k, "__set__")
     return what if isinstance(what, FuncInfo) else None
+
+
+def _descriptor_get(repo, cls: ClassInfo, value: ast.AST) -> bool:
+    """``name = Descriptor(...)`` in a class body where the package class Descriptor defines __get__."""
+    if not isinstance(value, ast.Call):
+        return False
+    f = value.func.value if isinstance(value.func, ast.Subscript) else value.func
+    d = dotted(f)
+    tgt = repo.resolve(cls.module, d) if d else None
+    k = repo.try_cls(tgt) if tgt and tgt.startswith("werkzeug") else None
+    return k is not None and isinstance(repo.lookup(k, "__get__")[1], FuncInfo)
 
 
 def _callback_param(fi: FuncInfo) -> int | None:
@@ -546,11 +565,39 @@ def _header_auto(a, ev, st):
     return (ops, reads, stores)
 
 
-def _view_oracle(key: str):
-    m = H.re.match(r"^isinstance\(__view__, (\w+)\)$", key)
-    if m and m.group(1) in BUILTIN_TYPES:
-        return False  # the callback receives the view object (a package class), never a builtin container
-    return None
+def _view_oracle_for(repo, truthy: bool | None = None, len_agrees: bool = False):
+    def declared_text(meth: str) -> bool:
+        """every package class that defines the method declares it ``-> str``: its result is never None."""
+        found = [c.methods[meth] for c in repo.all_classes() if meth in c.methods]
+        def is_str(a):
+            return (isinstance(a, ast.Name) and a.id == "str") or (isinstance(a, ast.Constant) and a.value == "str")
+        return bool(found) and all(is_str(f.node.returns) for f in found)
+
+    def oracle(key: str):
+        if truthy is not None and len_agrees:
+            # len(view) compared with 0 / 1, or its truth: decided by the truthiness this row fixes, when for every
+            # candidate class of the view ``len(view) == 0`` iff ``not view``
+            n = H.P(key)
+            LEN = "len(__view__)"
+            if key == LEN:
+                return truthy
+            if isinstance(n, ast.Compare) and len(n.ops) == 1:
+                a, b, op = H.text(n.left), H.text(n.comparators[0]), n.ops[0]
+                if isinstance(op, ast.Eq) and {a, b} == {LEN, "0"}:
+                    return not truthy
+                if isinstance(op, ast.Lt) and (a, b) in ((LEN, "1"),):
+                    return not truthy
+                if isinstance(op, ast.Lt) and (a, b) in (("0", LEN),):
+                    return truthy
+        m = H.re.match(r"^isinstance\(__view__, (\w+)\)$", key)
+        if m and m.group(1) in BUILTIN_TYPES:
+            return False  # the callback receives the view object (a package class), never a builtin container
+        m = H.re.match(r"^(?:__view__\.(\w+)\(\)|str\(__view__\)) is None$", key)
+        if m and (m.group(1) is None or declared_text(m.group(1))):
+            return False  # the serialisation is a text (``-> str`` on every class that defines the method), never None
+        return None
+
+    return oracle
 
 
 def _fn_names(term: str, ex) -> list[str]:
@@ -684,7 +731,7 @@ def _header_ops_casefold(ctx: Ctx) -> None:
             raise AnalysisError(f"{fi.fq if fi else hd.fq}: cannot decide whether `{d['terms'][0 if d['sides'][0] == 'unknown' else 1]}` in `{norm(cmp_)}` is lower-cased")
         side = lambda i: f"{'lower-cased' if d['sides'][i] == 'lowered' else 'RAW'} (`{d['terms'][i]}`)"  # noqa: E731
         ctx.ob("R16.8", f"{fi.qualname if fi else hd.name}: `{norm(cmp_)}` compares header names case-folded on both sides", d["ok"], f"left {side(0)}, right {side(1)}; reached from Headers.{'/'.join(sorted(d['ops']))}", fi or hd.fq, cmp_, norm(cmp_))
-    ctx.floor("R16.8", "case-folded name comparisons behind the views", len(found), 3)
+    ctx.floor("R16.8", "case-folded name comparisons behind the views", len(found), 1)  # one shared helper may hold them all
 
 
 # ---- R16.9: falsy view => nothing to serialise ---------------------------------------------------------------------
@@ -710,23 +757,7 @@ def _annotation_classes(repo, module, ann: ast.AST | None) -> list[ClassInfo]:
 
 def _empty_iter(term: str, facts: dict[str, bool]) -> bool:
     """the term iterates nothing on a path with these facts."""
-    c = H.const_of(term)
-    if c is not H._NOCONST:
-        return not c
-    if facts.get(term) is False:
-        return True
-    n = H.P(term)
-    if isinstance(n, (ast.ListComp, ast.SetComp, ast.GeneratorExp, ast.DictComp)):
-        return _empty_iter(H.text(n.generators[0].iter), facts)
-    if isinstance(n, ast.Call):
-        d = dotted(n.func)
-        if d in ("map", "filter") and len(n.args) == 2:
-            return _empty_iter(H.text(n.args[1]), facts)
-        if d in ("list", "tuple", "set", "frozenset", "sorted", "iter", "reversed", "enumerate") and n.args:
-            return _empty_iter(H.text(n.args[0]), facts)
-        if isinstance(n.func, ast.Attribute) and n.func.attr in ("items", "keys", "values", "copy") and not n.args:
-            return _empty_iter(H.text(n.func.value), facts)
-    return False
+    return H.iterates_nothing(term, facts)
 
 
 def _empty_text(term: str, facts: dict[str, bool]) -> bool:
@@ -735,7 +766,8 @@ def _empty_text(term: str, facts: dict[str, bool]) -> bool:
     if c is not H._NOCONST:
         return c == ""
     n = H.P(term)
-    if isinstance(n, ast.Call) and isinstance(n.func, ast.Attribute) and n.func.attr == "join" and len(n.args) == 1 and isinstance(H.const_of(H.text(n.func.value)), str):
+    if isinstance(n, ast.Call) and isinstance(n.func, ast.Attribute) and n.func.attr == "join" and len(n.args) == 1 and not n.keywords and (dotted(n.func) or "").rsplit(".", 2)[-2:-1] != ["path"]:
+        # separator.join(no items) is empty whatever the separator is (a literal, a module constant, a local)
         return _empty_iter(H.text(n.args[0]), facts)
     return False
 
@@ -831,8 +863,83 @@ def _falsy_means_empty_(repo, c: ClassInfo, meth: str) -> tuple[bool | None, str
         for o in ex2.run_function(sfi, facts0=f):
             if o.kind == "ret" and not _empty_text(o.value, o.st.facts):
                 cond = ", ".join(f"{k}={v}" for k, v in sorted(f.items())) or "always"
+                # the verdict stands only when the facts of the falsy outcome are about plain instance state: an attribute
+                # that the class serves through a descriptor object (``units = _CallbackProperty()``) reads some other
+                # storage, which is not followed
+                for a in sorted({a for k in f for a in H.re.findall(r"__self__\.(\w+)", k)}):
+                    _, what = repo.lookup(c, a)
+                    if isinstance(what, ast.AST) and _descriptor_get(repo, c, what):
+                        raise AnalysisError(f"{tfi.qualname} decides on `self.{a}`, which {c.name} serves through a descriptor object: which storage it reads is not followed")
                 return False, f"{tfi.qualname} makes the object falsy when [{cond}], but {sfi.qualname} then returns `{o.value}` (line {getattr(sfi.node, 'lineno', '?')}ff): the write-back would delete a header that has a serialisation"
     return True, f"{tfi.qualname}: {len(falsy)} falsy outcome(s), {sfi.qualname} returns '' on each"
+
+
+def _view_candidates(repo, fi: FuncInfo, ex, cbfn, setter) -> list[ClassInfo]:
+    """candidate classes of the view a write-back receives: what the callback / the getter / the setter are annotated
+    with, and the package classes the getter constructs (or that the package functions it calls declare to return)."""
+    snode_ = setter.node if isinstance(setter, FuncInfo) else (ex.fns[setter].node if setter in ex.fns else None)
+    cbargs = cbfn.node.args.args if cbfn.node is not None else (cbfn.fi.node.args.args[1:] if cbfn.fi is not None else [])
+    anns = [cbargs[0].annotation if cbargs else None, fi.node.returns]
+    if snode_ is not None and len(snode_.args.args) > 1:
+        anns.append(snode_.args.args[1].annotation)
+    cands: list[ClassInfo] = []
+    for ann in anns:
+        cands += [k for k in _annotation_classes(repo, fi.module, ann) if k not in cands]
+    for x in ast.walk(fi.node):
+        d = dotted(x.func) if isinstance(x, ast.Call) else None
+        tgt = repo.resolve(fi.module, d) if d else None
+        if not tgt or not tgt.startswith("werkzeug"):
+            continue
+        k = repo.try_cls(tgt)
+        tf = repo.try_func(tgt) if k is None else None
+        if k is not None and k not in cands:
+            cands.append(k)  # constructed by the getter
+        elif tf is not None:  # a package function / classmethod the getter calls: what it is declared to return
+            cands += [k2 for k2 in _annotation_classes(repo, tf.module, tf.node.returns) if k2 not in cands]
+    return cands
+
+
+def _len_agrees_with_truth(repo, c: ClassInfo) -> bool | None:
+    """``len(obj) == 0`` iff ``not obj`` for objects of class c: None when c has no __len__ (len() is not a question
+    for it) or the two methods cannot be related; True when truthiness *is* __len__ (no package __bool__), or the
+    package's __bool__ is the truth of the very storage whose length __len__ returns (HeaderSet's list and set are
+    empty together by R16.2)."""
+    _, lfi = repo.lookup(c, "__len__")
+    if lfi is None:
+        return None
+    _, bfi = repo.lookup(c, "__bool__")
+    if not isinstance(bfi, FuncInfo):
+        return True  # Python: without __bool__, truthiness is ``len(obj) != 0``
+    if not isinstance(lfi, FuncInfo):
+        return None
+    group = None
+    if c.fq.endswith("structures.HeaderSet"):
+        from ._shared import headerset_roles
+
+        group = {f"{H.SELF}.{x}" for x in headerset_roles(repo)}
+    same = lambda a, b: a == b or (group is not None and a in group and b in group)  # noqa: E731
+    lens = set()
+    for o in H.Exec(repo, c).run_function(lfi):
+        if o.kind != "ret":
+            continue
+        n = H.P(o.value)
+        if not (isinstance(n, ast.Call) and dotted(n.func) == "len" and len(n.args) == 1):
+            return None
+        lens.add(H.text(n.args[0]))
+    if len(lens) != 1:
+        return None
+    stored = next(iter(lens))
+    for o in H.Exec(repo, c).run_function(bfi):
+        if o.kind != "ret":
+            continue
+        f = _falsy_facts(o.value, o.st.facts)
+        if f is None:  # a truthy outcome: the path must know the measured storage to be non-empty
+            if not any(v is True and same(k, stored) for k, v in o.st.facts.items()):
+                return None
+            continue
+        if not any(v is False and (same(k, stored) or k == H.SELF) for k, v in f.items()):
+            return None
+    return True
 
 
 def _views(ctx: Ctx) -> None:
@@ -902,11 +1009,16 @@ def _views(ctx: Ctx) -> None:
         hdr = next(iter(reads))
         cb = next(iter(cbs))
         # ---- decision of the callback on the view's truthiness (and the header's presence)
-        ex2 = H.Exec(repo, resp, on_event=_header_auto, oracle=_view_oracle)
-        ex2.fns = dict(ex.fns)
+        raw_cands = _view_candidates(repo, fi, ex, ex.fns[cb], setter)
+        agree = [_len_agrees_with_truth(repo, k) for k in raw_cands]
+        len_agrees = any(a is True for a in agree) and all(a is not False for a in agree) and all(a is True for a, k in zip(agree, raw_cands) if repo.lookup(k, "__len__")[1] is not None)
         rows = {}
+        forks_seen: set[str] = set()
         for truthy in (True, False):
+            ex2 = H.Exec(repo, resp, on_event=_header_auto, oracle=_view_oracle_for(repo, truthy, len_agrees))
+            ex2.fns = dict(ex.fns)
             rows[truthy] = [o for o in ex2.run_fn(cb, ["__view__"], auto0=((), frozenset(), frozenset()), facts0={"__view__": truthy}) if o.kind == "ret"]
+            forks_seen |= ex2.unknown_forks
         names_ok, ser_ok, del_ok = True, True, True
         kinds: set[str | None] = set()
         why: list[str] = []
@@ -951,7 +1063,7 @@ def _views(ctx: Ctx) -> None:
         if not (names_ok and del_ok and (ser_ok and bool(kinds))):
             # a verdict against the write-back stands only when its branches were understood: a condition over the view
             # (other than its truthiness, which the two rows fix) that had to be followed both ways is not modelled
-            forks = sorted(k for k in ex2.unknown_forks if "__view__" in k and k != "__view__")
+            forks = sorted(k for k in forks_seen if "__view__" in k and k != "__view__")
             if forks:
                 raise AnalysisError(f"{name}: the write-back branches on conditions over the view that the rule does not model: {forks[:3]}")
         fact = f"getter reads {hdr!r}; non-empty view: {sorted({o.st.auto[0] for o in rows[True]})}; empty view: {sorted({o.st.auto[0] for o in rows[False]})}" + ("; " + "; ".join(why[:2]) if why else "")
@@ -966,25 +1078,7 @@ def _views(ctx: Ctx) -> None:
         if depends and not mixed and sers:
             # candidate classes of the view: what the callback / the getter / the setter are annotated with, and the
             # package classes the getter constructs (each one that has the serialisation method the write-back calls)
-            snode_ = setter.node if isinstance(setter, FuncInfo) else (ex.fns[setter].node if setter in ex.fns else None)
-            cbargs = cbfn.node.args.args if cbfn.node is not None else (cbfn.fi.node.args.args[1:] if cbfn.fi is not None else [])
-            anns = [cbargs[0].annotation if cbargs else None, fi.node.returns]
-            if snode_ is not None and len(snode_.args.args) > 1:
-                anns.append(snode_.args.args[1].annotation)
-            cands: list[ClassInfo] = []
-            for ann in anns:
-                cands += [k for k in _annotation_classes(repo, fi.module, ann) if k not in cands]
-            for x in ast.walk(fi.node):
-                d = dotted(x.func) if isinstance(x, ast.Call) else None
-                tgt = repo.resolve(fi.module, d) if d else None
-                if not tgt or not tgt.startswith("werkzeug"):
-                    continue
-                k = repo.try_cls(tgt)
-                tf = repo.try_func(tgt) if k is None else None
-                if k is not None and k not in cands:
-                    cands.append(k)  # constructed by the getter
-                elif tf is not None:  # a package function / classmethod the getter calls: what it is declared to return
-                    cands += [k2 for k2 in _annotation_classes(repo, tf.module, tf.node.returns) if k2 not in cands]
+            cands = list(raw_cands)
             cands = [k for k in cands if any(isinstance(repo.lookup(k, m_)[1], FuncInfo) for m_ in sers)]
             if not cands:
                 raise AnalysisError(f"{name}: the write-back tests the truthiness of its view, but the view's class cannot be determined (no annotation / construction resolves to a package class with {sorted(sers)})")
